@@ -38,6 +38,8 @@ Apply(st, undir, op, a, b, d) ==
     [] op = "addmulti" -> {<< <<1, d>>, [st EXCEPT !.E = Ins3(E, Mk(undir, a, b, d))] >>}
     [] op = "rmedge" -> IF m = {} THEN {<< <<0>>, st >>} ELSE {<< <<1>>, [st EXCEPT !.E = RemAt(E, i)] >> : i \in m}
     [] op = "find" -> {<< <<IF m = {} THEN 0 ELSE 1>>, st >>}
+    \* the edge looked up in every way the flavour offers (plain, sorted by destination, through the reverse view): all agree
+    [] op = "findall" -> LET f == IF m = {} THEN 0 ELSE 1 IN {<< <<f, f, f>>, st >>}
     [] op = "setdata" -> IF m = {} THEN {<< <<0>>, st >>}
                          ELSE {<< <<1>>, [st EXCEPT !.E = Ins3(RemAt(E, i), <<E[i][1], E[i][2], d>>)] >> : i \in m}
     [] op = "incdata" -> IF m = {} THEN {<< <<0>>, st >>}
